@@ -964,9 +964,20 @@ type vGate struct {
 	heldCh    chan struct{}
 	release   chan uint64
 	entries   atomic.Int64 // checks begun (first readings)
+	inside    atomic.Int64 // goroutines currently inside readMemStatsFn / runGCFn
+	overlap   atomic.Int64 // times a second goroutine was seen inside at the same moment
 }
 
+func (g *vGate) enter() {
+	if g.inside.Add(1) > 1 {
+		g.overlap.Add(1)
+	}
+}
+func (g *vGate) leave() { g.inside.Add(-1) }
+
 func (g *vGate) read(ms *runtime.MemStats) {
+	g.enter()
+	defer g.leave()
 	g.mu.Lock()
 	if g.skipCount { // the re-reading after the held GC: same check
 		g.skipCount = false
@@ -996,6 +1007,8 @@ func (g *vGate) read(ms *runtime.MemStats) {
 }
 
 func (g *vGate) gc() {
+	g.enter()
+	defer g.leave()
 	g.mu.Lock()
 	h := g.holdGC
 	g.holdGC = false
@@ -1195,6 +1208,9 @@ func vFineOne(seed uint64) vFineRes {
 	}
 	ml.ticker.Stop()
 	res.term = fmt.Sprintf("(CFine %s None %s %s)", vCfg(c), vList(ops), vList(obs))
+	if n := g.overlap.Load(); n > 0 { // single checker goroutine: CheckMemLimits never runs concurrently with itself
+		bad("concurrent-checks", fmt.Sprintf("%d overlapping entries into readMemStatsFn/runGCFn", n))
+	}
 	for i := range res.oracles {
 		res.oracles[i][1] = res.term
 	}
@@ -1241,6 +1257,14 @@ func vFineCases(out *vOut, r *vRand, n int) {
 // (Proofs.v wrap_cfg / wrap_total: 2 % / 1 % of 2^63 bytes) — the limit wraps to 0, the spike does
 // not, and a terabyte of usage is not refused.  (The restart sequence [Start; Shutdown; Start] of the
 // repaired defect C18-RESTART is part of the exhaustive CLife enumeration: a regression input.)
+func vDefaultConfigCase(out *vOut) {
+	d := NewDefaultConfig()
+	out.Case(true, fmt.Sprintf("(CDefault %s)", vCfg(d)))
+	if d.Validate() == nil {
+		out.Oracle("validate-accepts-bad-config", fmt.Sprintf("(CDefault %s)", vCfg(d)), "the default configuration (no limit, no check interval) is accepted")
+	}
+}
+
 func vWitnessReplay(out *vOut) {
 	c := &Config{CheckInterval: time.Second, MemoryLimitPercentage: 2, MemorySpikePercentage: 1}
 	total := vTotal{true, 1 << 63}
@@ -1272,6 +1296,7 @@ func TestVerifC18(t *testing.T) {
 	out := vOpen()
 	defer out.Close()
 	vWitnessReplay(out)
+	vDefaultConfigCase(out)
 	vConfigCases(out, vNewRand(1801), vBudget(350, 20))
 	vRunCases(out, vNewRand(1802), vBudget(350, 20))
 	vRunGrid(out)
@@ -1279,4 +1304,61 @@ func TestVerifC18(t *testing.T) {
 	vLifeConcurrent(out, vNewRand(1804))
 	vSysCases(out, vNewRand(1805), vBudget(80, 15))
 	vFineCases(out, vNewRand(1806), vBudget(80, 15))
+}
+
+// TestVerifC18Race is run under the race detector (separate harness entry): the concurrent parts
+// only — users starting/stopping concurrently, periodic checks on the real ticker with checks held
+// in flight, and readers of MustRefuse running against the checker goroutine.  A data race in the
+// implementation fails the test (reported as a broken harness run).
+func TestVerifC18Race(t *testing.T) {
+	out := vOpen()
+	defer out.Close()
+	vLifeConcurrent(out, vNewRand(1841))
+	vFineCases(out, vNewRand(1842), vBudget(24, 10))
+	// readers vs. the single writer
+	c := &Config{CheckInterval: time.Millisecond, MemoryLimitMiB: 100, MemorySpikeLimitMiB: 10}
+	ml, err := NewMemoryLimiter(c, zap.NewNop())
+	if err != nil {
+		t.Fatal(err)
+	}
+	var alloc atomic.Uint64
+	ml.readMemStatsFn = func(ms *runtime.MemStats) { ms.Alloc = alloc.Load() }
+	ml.runGCFn = func() {}
+	soft := ml.usageChecker.memAllocLimit - ml.usageChecker.memSpikeLimit
+	_ = ml.Start(context.Background(), nil)
+	var wg sync.WaitGroup
+	stop := make(chan struct{})
+	var seenTrue, seenFalse atomic.Int64
+	for w := 0; w < 4; w++ {
+		wg.Add(1)
+		go func() {
+			defer wg.Done()
+			for {
+				select {
+				case <-stop:
+					return
+				default:
+				}
+				if ml.MustRefuse() {
+					seenTrue.Add(1)
+				} else {
+					seenFalse.Add(1)
+				}
+				runtime.Gosched()
+			}
+		}()
+	}
+	for k := 0; k < 40; k++ {
+		if k%2 == 0 {
+			alloc.Store(soft + 1)
+		} else {
+			alloc.Store(0)
+		}
+		time.Sleep(3 * time.Millisecond)
+	}
+	close(stop)
+	wg.Wait()
+	_ = ml.Shutdown(context.Background())
+	out.Stat("race.readers_saw_refusing", int(seenTrue.Load()))
+	out.Stat("race.readers_saw_accepting", int(seenFalse.Load()))
 }
